@@ -54,6 +54,9 @@ class ClassTr:
         self.methods = {n.name: n for n in self.cls.body if isinstance(n, ast.FunctionDef)}
         self.rel, self.cname = rel, cls
         self.fields: list[tuple[str, str]] = []
+        self.locks: set[str] = set()
+        self.events: set[str] = set()
+        self.log_writes = False        # record every primitive write / lock operation, in order, in the state
         init = self.methods.get("__init__")
         if init is None:
             raise Untranslatable("no __init__")
@@ -64,7 +67,14 @@ class ClassTr:
                 if f in skip_fields:
                     continue
                 v = s.value
-                ty = "Bool" if isinstance(v, ast.Constant) and isinstance(v.value, bool) else "Rat"
+                vt = ast.unparse(v)
+                if vt.endswith("Lock()") or vt.endswith("RLock()"):
+                    self.locks.add(f)
+                    continue
+                ty = "Bool" if (isinstance(v, ast.Constant) and isinstance(v.value, bool)) or vt.endswith("Event()") \
+                    else "Rat"
+                if vt.endswith("Event()"):
+                    self.events.add(f)
                 self.fields.append((f, ty))
         self.fnames = {f for f, _ in self.fields}
         self.tmp = 0
@@ -84,6 +94,9 @@ class ClassTr:
             if f not in self.fnames:
                 raise Untranslatable(f"unknown attribute self.{e.attr}")
             return f"(← getS).{f}"
+        if isinstance(e, ast.Call) and isinstance(e.func, ast.Attribute) and e.func.attr == "is_set" and \
+                isinstance(e.func.value, ast.Attribute) and lname(e.func.value.attr) in self.events:
+            return f"(← getS).{lname(e.func.value.attr)}"
         if isinstance(e, ast.Call) and isinstance(e.func, ast.Attribute) and isinstance(e.func.value, ast.Name):
             owner, name = e.func.value.id, e.func.attr
             if owner == "_original_time" and not e.args and not e.keywords:
@@ -150,6 +163,21 @@ class ClassTr:
                     and not s.value.args and s.value.func.attr in self.methods:
                 self.called.add(s.value.func.attr)
                 out.append(f"{ind}{lname(s.value.func.attr)}")
+            elif isinstance(s, ast.Expr) and isinstance(s.value, ast.Call) and isinstance(s.value.func, ast.Attribute) \
+                    and s.value.func.attr in ("set", "clear") and isinstance(s.value.func.value, ast.Attribute) \
+                    and lname(s.value.func.value.attr) in self.events:
+                ev = lname(s.value.func.value.attr)
+                val = "true" if s.value.func.attr == "set" else "false"
+                out.append(f"{ind}modifyS fun s => {{ s with {ev} := {val}" +
+                           (f", log := s.log ++ [\"{s.value.func.attr} {ev}\"]" if self.log_writes else "") + " }")
+            elif isinstance(s, ast.Raise):
+                out.append(f"{ind}failure")
+            elif isinstance(s, ast.With) and len(s.items) == 1 and isinstance(s.items[0].context_expr, ast.Attribute) \
+                    and lname(s.items[0].context_expr.attr) in self.locks and self.log_writes:
+                lk = lname(s.items[0].context_expr.attr)
+                out.append(f"{ind}modifyS fun s => {{ s with log := s.log ++ [\"acquire {lk}\"] }}")
+                out += self.block(s.body, ind, ret, params, locs)
+                out.append(f"{ind}modifyS fun s => {{ s with log := s.log ++ [\"release {lk}\"] }}")
             elif isinstance(s, ast.If):
                 out.append(f"{ind}if {self.ex(s.test, 'Bool', params, locs)} then")
                 out += self.block(s.body, ind + "  ", ret, params, locs) or [f"{ind}  pure ()"]
@@ -213,5 +241,6 @@ class ClassTr:
             order.append(n)
         for n in names + [k for k in parts if k not in names]:
             visit(n)
-        st = "structure TC where\n" + "\n".join(f"  {f} : {t}" for f, t in self.fields) + "\n"
+        st = "structure TC where\n" + "\n".join(f"  {f} : {t}" for f, t in self.fields) + \
+            ("\n  log : List String := []" if self.log_writes else "") + "\n"
         return st + "\n" + PRELUDE + "\n" + "\n\n".join(parts[n] for n in order) + "\n"
